@@ -357,6 +357,64 @@ theorem dmOf_eC (vd : Fin np → Cx K) (e : Fin (np * 3) → Fin (np * 3) → K)
   apply Finset.sum_congr rfl; intro ν _
   apply Cx.ext' <;> simp <;> ring
 
+/-! ### `uu` is the sampler's covariance -/
+
+theorem row_div (i : Fin np) (l : Fin 3) : (⟨(row i l).1 / 3, by have := (row i l).2; omega⟩ : Fin np) = i := by
+  apply Fin.ext
+  simp only [row]
+  have := l.2
+  omega
+
+/-- **`uu_eq_cov`**: the correlation matrix `run_correlation_matrix` builds through `DynmatToForceConstants`
+(rows of primitive atoms) equals `A·Aᵀ` of the sampler, given that both are fed the same eigen-solutions and that the
+d2f phase factors are those of the sampler (`exp(−2πi q·(x_j − x_i))` = `phase_i·conj(phase_j)`; for `q = −q` the
+D-type/C-type change `Vd` and the real phases `cos`), and `sqrt(m_i m_j)/(N m_i m_j) = 1/(rm_i rm_j)`. -/
+theorem uu_eq_cov (I : RDIn np ns nii nij K) (J : D2FIn np ns nii nij K) (p2s : Fin np → Fin ns)
+    (hr2 : I.r2 * I.r2 = 2)
+    (hs2pp : J.s2pp = I.s2pp) (hp2s : ∀ i, I.s2pp (p2s i) = i) (heii : J.eii = I.eii) (heij : J.eij = I.eij)
+    (hpii : ∀ q i j, J.vd q i * Cx.conj (J.vd q (I.s2pp j)) * J.pii q j i = Cx.ofRe (I.cosii q (p2s i) * I.cosii q j))
+    (hpij : ∀ q i j, J.pij q j i = I.phij q (p2s i) * Cx.conj (I.phij q j))
+    (hpnij : ∀ q i j, J.pnij q j i = Cx.conj (J.pij q j i))
+    (hmass : ∀ i j, J.ms i (I.s2pp j) / ((nii + 2 * nij : Nat) : K) / (J.pmass i * J.smass j) = 1 / (I.rm (p2s i) * I.rm j))
+    (i : Fin np) (j : Fin ns) (l m : Fin 3) :
+    uuRow J I.sigii I.sigij i j l m = cov I (p2s i) l j m := by
+  unfold uuRow d2fRow
+  rw [hs2pp, heii, heij]
+  have hk : ∀ S : K, S * (J.ms i (I.s2pp j) / ((nii + 2 * nij : Nat) : K)) / (J.pmass i * J.smass j)
+      = S * (1 / (I.rm (p2s i) * I.rm j)) := by
+    intro S; rw [← hmass i j]; ring
+  rw [hk]
+  unfold cov
+  simp only [sumFin_eq]
+  rw [add_mul, add_mul, Finset.sum_mul, Finset.sum_mul, Finset.sum_mul, add_assoc, ← Finset.sum_add_distrib]
+  congr 1
+  · apply Finset.sum_congr rfl; intro q _
+    unfold d2fEntry
+    rw [dmOf_eC, row_div, row_div]
+    have h := hpii q i j
+    have e1 : J.vd q i * Cx.conj (J.vd q (I.s2pp j))
+          * Cx.ofRe (∑ ν, I.sigii q ν * I.sigii q ν * I.eii q (row i l) ν * I.eii q (row (I.s2pp j) m) ν) * J.pii q j i
+        = Cx.ofRe (I.cosii q (p2s i) * I.cosii q j)
+          * Cx.ofRe (∑ ν, I.sigii q ν * I.sigii q ν * I.eii q (row i l) ν * I.eii q (row (I.s2pp j) m) ν) := by
+      rw [← h]; ring
+    rw [e1]
+    simp only [Cx.mul_re, Cx.ofRe_re, Cx.ofRe_im, mul_zero, sub_zero]
+    rw [Finset.mul_sum, Finset.sum_mul]
+    apply Finset.sum_congr rfl; intro ν _
+    unfold Aii
+    rw [hp2s]; ring
+  · apply Finset.sum_congr rfl; intro q _
+    unfold d2fEntry
+    rw [dmOf_conj, hpnij, ← Cx.conj_mul]
+    simp only [Cx.conj_re]
+    rw [← two_mul, dmOf_eq, hpij, Finset.sum_mul, Cx.sum_re, Finset.sum_mul, Finset.mul_sum]
+    apply Finset.sum_congr rfl; intro ν _
+    rw [pair_variance I hr2]
+    unfold wij
+    rw [hp2s]
+    simp only [Cx.add_re, Cx.mul_re, Cx.mul_im, Cx.conj_re, Cx.conj_im]
+    ring
+
 /-- inverse lattice Fourier transform of the forward transform, over any finite set `P` of points:
 given character orthogonality of the phase table, `d2f(fwd(Φ)) = Φ`. -/
 theorem d2f_fwd {P : Type} [Fintype P] (s2pp : Fin ns → Fin np) (fc : Fin np → Fin ns → Fin 3 → Fin 3 → K)
@@ -449,6 +507,7 @@ end PhononModel.C19
 #print axioms PhononModel.C19.q2_canonical_guard_zero
 #print axioms PhononModel.C19.dmOf_mul
 #print axioms PhononModel.C19.uu_inv_is_inverse_partial
+#print axioms PhononModel.C19.uu_eq_cov
 #print axioms PhononModel.C19.dmOf_conj
 #print axioms PhononModel.C19.dmOf_eC
 #print axioms PhononModel.C19.d2f_fwd
